@@ -1,4 +1,8 @@
 """C02 - copied text maps to exactly the offset where it stands."""
+import collections
+import random
+import re
+
 from .. import tex
 from .doccommon import DocCheck
 
@@ -12,7 +16,8 @@ class C02(DocCheck):
             '(literal word characters in running text, arguments of unknown / declared / user macros, \\verb, '
             'verbatim, \\text/\\mbox in maths, footnotes, captions, headings, items, theorem bodies, tables; '
             'replaced special sequences, accents, German shorthands map to the first character of the sequence) '
-            'the map entry must equal the printer-recorded offset. non-trivial = aligned document with >= 10 copy '
+            'the map entry must equal the printer-recorded offset; the white space between two adjacent literal words '
+            'must come out unchanged, each character with its own offset. non-trivial = aligned document with >= 10 copy '
             'obligations; distinct = distinct generator parameters')
     level_text = ('Exploration: every character of every unique literal word of thousands of generated documents '
                   'is an exact-position obligation (10^5 - 10^7 obligations per run), in each context the statement '
@@ -22,8 +27,76 @@ class C02(DocCheck):
     design_ref = 'DESIGN.md sections 3.2, 4 C02'
     assumptions = ['alignment by unique words (a word identifies its source occurrence)']
 
+    def cases(self, tier, seed, shard, nshards):
+        yield from super().cases(tier, seed, shard, nshards)
+        # multi-language family: documents with language commands (generator of C12); every character of every
+        # part except the language-change placeholders is a copy of the single-language result
+        from .. import core
+        from .c12 import MAINS
+        rnd = core.sub_rng('C02ml', seed, shard)
+        for i in range((1600 if tier == 'quick' else 30000) // nshards):
+            yield dict(fam='mllang', s=rnd.getrandbits(48), main=rnd.choice(MAINS), T=rnd.randint(0, 5))
+
+    def judge(self, case):
+        if case.get('fam') == 'mllang':
+            return self.judge_mllang(case)
+        return super().judge(case)
+
+    def judge_mllang(self, case):
+        from .c12 import G, CHANGE
+        rnd = random.Random(case['s'])
+        g = G(rnd, case['main'])
+        g.w('\\usepackage{babel}\n\\newcommand{\\yopt}[1][yoptd]{}\n')
+        g.seq(rnd.randint(1, 6))
+        for _ in range(rnd.randint(0, 2)):
+            g.probe()
+        g.w('\n')
+        src = ''.join(g.buf)
+        T = case['T']
+
+        def mod(parms):
+            parms.ml_continue_thresh = T
+        r, err = tex.run(src, ml=True, lang=case['main'], modify_parms=mod)
+        (t1, p1), err1 = tex.run(src, lang=case['main'])
+        cnt = {'ml_language_documents': 1}
+        have = set(zip(t1, p1))
+        left = collections.Counter(zip(t1, p1))
+        holders = '|'.join(re.escape(x) for x in sorted({y for v in CHANGE.values() for y in v}))
+        detail = dict(src=src, parts={lg: [[p[0], list(p[1])] for p in r[lg]] for lg in r}, single=[t1, list(p1)], T=T)
+        nws = 0
+        for lg in r:
+            for t, p in r[lg]:
+                if len(t) != len(p):
+                    return dict(ok=False, nt=True, key='copy@ml-length', cnt=cnt, obs=None, detail=detail)
+                skip, border = set(), set()
+                for m in re.finditer(holders, t):
+                    skip.update(range(m.start(), m.end()))
+                    border.update((m.start() - 1, m.end()))
+                    cnt['ml_placeholders'] = cnt.get('ml_placeholders', 0) + 1
+                for k, (c, q) in enumerate(zip(t, p)):
+                    if k in skip:
+                        continue
+                    if c.isspace():
+                        # the white space kept on both sides of a placeholder is the border white space of the
+                        # insertion (it stays in the insertion's own part, too): same character, same offset as in
+                        # the single-language result. Other white space (separators of parts and flows) is generated.
+                        if k in border and not (c == '\n' and (t[k - 1:k] == '\n' or t[k + 1:k + 2] in ('\n', ''))):
+                            # (a run of line breaks / the closing line break is the generated separator of a flow)
+                            nws += 1
+                            if (c, q) not in have:
+                                detail.update(language=lg, index=k, char=c, pos=q, source_there=src[q - 1:q + 5])
+                                return dict(ok=False, nt=True, key='copy@ml-whitespace', cnt=cnt, obs=None, detail=detail)
+                        continue
+                    if left[(c, q)] <= 0:
+                        detail.update(language=lg, index=k, char=c, pos=q, source_there=src[q - 1:q + 5])
+                        return dict(ok=False, nt=True, key='copy@ml-char', cnt=cnt, obs=None, detail=detail)
+                    left[(c, q)] -= 1
+        cnt['ml_whitespace_obligations'] = nws
+        return dict(ok=True, nt=len(r) > 1, key=None, cnt=cnt, obs=dict(src=tex.short(src, 200), languages=sorted(r)))
+
     def verdict(self, case, d, t, p, err, a, cnt):
         cnt['copy_obligations'] = a['n_copy']
+        cnt['whitespace_copy_obligations'] = a['n_ws']
         for w, st, path in d.words:
             cnt['ctx_' + (path[-1] if path else 'top')] = 1
         if a['c02']:
@@ -36,7 +109,7 @@ class C02(DocCheck):
 
     def quotas(self, tier):
         q = super().quotas(tier)
-        q.update({'copy_obligations': 100000, 'ctx_verb': 100, 'ctx_verbatim': 30, 'ctx_userarg': 300,
+        q.update({'ml_language_documents': 1000, 'ml_placeholders': 300, 'ml_whitespace_obligations': 300, 'copy_obligations': 100000, 'whitespace_copy_obligations': 5000, 'ctx_verb': 100, 'ctx_verbatim': 30, 'ctx_userarg': 300,
                   'ctx_mathtext': 100, 'ctx_footnote': 100, 'ctx_caption': 100, 'ctx_heading': 100,
                   'ctx_item': 100, 'ctx_theorem': 30, 'ctx_tabular': 30, 'ctx_unkarg': 300, 'ctx_declarg': 300})
         return q
